@@ -15,12 +15,11 @@ def main():
     seams.install_fs()
     seams.seed_global_prngs(req["rk"])
     seams.FS.files["mem://child"] = data
-    from engines.resume_checks import snapshot_of, query_points
+    from engines.resume_checks import snapshot_of, query_points, query_sequence
     with seams.quiet():
         sa = SC.StandardCombi.restore_from_file("mem://child")
         P = query_points(req["rk"], req["a"], req["b"], req["npts"])
-        import copy
-        vals = [[float(x).hex() for x in row] for row in copy.deepcopy(sa)(P)] if P else []
+        vals = query_sequence(SC.StandardCombi.restore_from_file("mem://child"), P, req.get("interp", True), clone=False)
         ret = sa.continue_adaptive_refinement(tol=-1.0, max_evaluations=req["final"])
         snap = snapshot_of(sa, req["strategy"], ret)
     sys.stdout.write("\n@@SNAP@@" + json.dumps({"snap": snap, "vals": vals}) + "\n")
